@@ -1,4 +1,4 @@
-//@unit U13 props=C06,C13,C16 rlimit=80 renet wire codec Packet::{from_bytes, to_bytes, sequence} (renet/src/packet.rs)
+//@unit U13 props=C06,C13,C16 rlimit=150 renet wire codec Packet::{from_bytes, to_bytes, sequence} (renet/src/packet.rs)
 #![feature(allocator_api)]
 #![allow(unused_imports, dead_code, unused_variables, unused_mut)]
 use vstd::prelude::*;
@@ -40,11 +40,6 @@ impl From<octets::BufferTooShortError> for SerializationError {
 //@include contracts/shared/wire_specs.rs
 //@include contracts/shared/wire_format_specs.rs
 
-/// rule D8: the `Packet::Ack` arm of to_bytes uses `iter().rev()` (not in Verus' subset); nothing is concluded about it
-#[verifier::external_body]
-pub fn to_bytes_ack_arm_unverified(p: &Packet, b: &mut octets::OctetsMut) -> (r: Result<usize, SerializationError>)
-{ unimplemented!() }
-
 impl Packet {
 //@fn renet/src/packet.rs Packet::sequence
 //@ret r
@@ -56,7 +51,6 @@ impl Packet {
 //@ret r
 //@safety C13
 //@attr #[verifier::loop_isolation(false)]
-//@replacearm /Packet::Ack \{ sequence, ack_ranges \} => \{/ => return to_bytes_ack_arm_unverified(self, b);
 //@spec
         requires
             packet_encodable(*self),
@@ -68,6 +62,11 @@ impl Packet {
                 // what is written is the wire format of this packet, appended to what the buffer held
                 &&& (r is Ok ==> final(b).out() == old(b).out() + wire(pview(*self)))                              // @C16 to_bytes.writes_the_wire_format
                 // (that the error value is BufferTooShort is not stated: this Verus version leaves the `?` From-conversion unspecified)
+            },
+            // acknowledgement packets: exactly the wire format, failing only when the buffer is shorter than it
+            *self is Ack ==> {
+                &&& (r is Ok <==> old(b).cap_spec() >= wire(pview(*self)).len())                                   // @C13 to_bytes.ack_fails_only_when_buffer_too_short
+                &&& (r matches Ok(n) ==> n == wire(pview(*self)).len() && final(b).out() == old(b).out() + wire(pview(*self)))   // @C13,C16 to_bytes.ack_writes_the_wire_format
             },
 //@entry
         let ghost cap0 = b.cap_spec();
@@ -124,23 +123,65 @@ impl Packet {
                         assert(b.out() == out0 + seq![1u8] + enc(*sequence) + seq![*channel_id] + octets::u16_be(messages@.len() as u16) + wire_unrel_msgs(v1))
                             by { broadcast use seq_assoc::lemma_concat_assoc; }
                     }
+//@after /Packet::Ack \{ sequence, ack_ranges \} => \{/
+                let ghost n = ack_ranges@.len() as int;
+                let ghost d = ranges_view(ack_ranges@).reverse();
+                let ghost hdr = seq![4u8] + enc(*sequence) + enc((d[0].1 - 1) as u64) + enc((d[0].1 - 1 - d[0].0) as u64) + enc((n - 1) as u64);
+                proof {
+                    lemma_ranges_wf_at(ack_ranges@, n - 1);
+                    assert(d[0] == (ack_ranges@[n - 1].start, ack_ranges@[n - 1].end));
+                    assert(wire(pview(*self)) == hdr + wire_ack_tail(d, 1)) by { reveal(wire); }
+                    assert(hdr.len() == 1 + vl(*sequence) + vl((d[0].1 - 1) as u64) + vl((d[0].1 - 1 - d[0].0) as u64) + vl((n - 1) as u64));
+                }
+//@loop 3 iter=itK
+                    invariant
+                        itK.seq().len() == n - 1,
+                        forall|i: int| 0 <= i < itK.seq().len() ==> *(#[trigger] itK.seq()[i]) == ack_ranges@[n - 2 - i],
+                        previous_range_start == d[itK.index() as int].0,
+                        b.out() == out0 + hdr + wire_ack_upto(d, itK.index() + 1),   // @C16 to_bytes.ack_range_loop_writes_the_wire_format
+                        b.cap_spec() + b.out().len() == cap0 + out0.len(),
+//@after /for range in it \{/
+                    let ghost k = itK.index() as int;
+                    proof {
+                        assert(*range == ack_ranges@[n - 2 - k]);
+                        lemma_ranges_wf_at(ack_ranges@, n - 2 - k);
+                        lemma_ranges_wf_at(ack_ranges@, n - 1 - k);
+                        assert(d.len() == n);
+                        assert(d[k + 1] == (range.start, range.end));
+                        assert(d[k] == (ack_ranges@[n - 1 - k].start, ack_ranges@[n - 1 - k].end));
+                        lemma_ack_upto_tail(d, k + 1);
+                        // what is still to come starts with this round's two varints: a failing put means the buffer is shorter than the packet
+                        assert(wire_ack_tail(d, k + 1).len() >= vl((d[k].0 - d[k + 1].1 - 1) as u64) + vl((d[k + 1].1 - 1 - d[k + 1].0) as u64));
+                        assert(wire(pview(*self)).len() == hdr.len() + wire_ack_upto(d, k + 1).len() + wire_ack_tail(d, k + 1).len());
+                    }
+//@loopend 3
+                    proof {
+                        assert(b.out() == out0 + hdr + wire_ack_upto(d, k + 2)) by { broadcast use seq_assoc::lemma_concat_assoc; }
+                    }
+//@afterloop 3
+                proof {
+                    lemma_ack_upto_tail(d, n);
+                    assert(wire_ack_tail(d, n) =~= Seq::<u8>::empty());
+                    assert(wire_ack_upto(d, n) + Seq::<u8>::empty() =~= wire_ack_upto(d, n));
+                    assert(b.out() == out0 + wire(pview(*self))) by { broadcast use seq_assoc::lemma_concat_assoc; }   // @C16 to_bytes.arm_writes_the_wire_format
+                }
 //@afterloop 1
                 proof {
                     assert(messages@.take(messages@.len() as int) =~= messages@);
-                    assert(b.out() == out0 + wire(pview(*self))) by { broadcast use seq_assoc::lemma_concat_assoc; }   // @C16 to_bytes.arm_writes_the_wire_format
+                    assert(b.out() == out0 + wire(pview(*self))) by { reveal(wire); broadcast use seq_assoc::lemma_concat_assoc; }   // @C16 to_bytes.arm_writes_the_wire_format
                 }
 //@afterloop 2
                 proof {
                     assert(messages@.take(messages@.len() as int) =~= messages@);
-                    assert(b.out() == out0 + wire(pview(*self))) by { broadcast use seq_assoc::lemma_concat_assoc; }   // @C16 to_bytes.arm_writes_the_wire_format
+                    assert(b.out() == out0 + wire(pview(*self))) by { reveal(wire); broadcast use seq_assoc::lemma_concat_assoc; }   // @C16 to_bytes.arm_writes_the_wire_format
                 }
 //@after /b\.put_bytes\(&slice\.payload\)\?;/ 1
                 proof {
-                    assert(b.out() == out0 + wire(pview(*self))) by { broadcast use seq_assoc::lemma_concat_assoc; }   // @C16 to_bytes.arm_writes_the_wire_format
+                    assert(b.out() == out0 + wire(pview(*self))) by { reveal(wire); broadcast use seq_assoc::lemma_concat_assoc; }   // @C16 to_bytes.arm_writes_the_wire_format
                 }
 //@after /b\.put_bytes\(&slice\.payload\)\?;/ 2
                 proof {
-                    assert(b.out() == out0 + wire(pview(*self))) by { broadcast use seq_assoc::lemma_concat_assoc; }   // @C16 to_bytes.arm_writes_the_wire_format
+                    assert(b.out() == out0 + wire(pview(*self))) by { reveal(wire); broadcast use seq_assoc::lemma_concat_assoc; }   // @C16 to_bytes.arm_writes_the_wire_format
                 }
 //@endfn
 
@@ -183,7 +224,7 @@ impl Packet {
                         messages@.len() == itA.index(),
                         forall|i: int| 0 <= i < messages@.len() ==> (#[trigger] messages@[i]).1@.len() < 0x4000_0000_0000_0000,
                         parse_rel_msgs(ra4, messages_len as nat, Seq::empty())
-                            == parse_rel_msgs(b.rest(), (messages_len - itA.index()) as nat, rel_msgs_view(messages@)),
+                            == parse_rel_msgs(b.rest(), (messages_len - itA.index()) as nat, rel_msgs_view(messages@)),   // @C16 from_bytes.message_loop_follows_the_parser
 //@before /let message_id = b\.get_varint\(\)\?;/ 1
                     let ghost rb = b.rest();
                     let ghost m0 = messages@;
@@ -202,7 +243,7 @@ impl Packet {
                         messages@.len() == itB.index(),
                         forall|i: int| 0 <= i < messages@.len() ==> (#[trigger] messages@[i])@.len() < 0x4000_0000_0000_0000,
                         parse_unrel_msgs(rc4, messages_len as nat, Seq::empty())
-                            == parse_unrel_msgs(b.rest(), (messages_len - itB.index()) as nat, unrel_msgs_view(messages@)),
+                            == parse_unrel_msgs(b.rest(), (messages_len - itB.index()) as nat, unrel_msgs_view(messages@)),   // @C16 from_bytes.message_loop_follows_the_parser
 //@before /let payload = b\.get_bytes_with_varint_length\(\)\?;/ 2
                     let ghost m1 = messages@;
 //@after /messages\.push\(payload\.to_vec\(\)\.into\(\)\);/
@@ -211,28 +252,38 @@ impl Packet {
                     }
 //@before /for _ in 0\.\.num_remaining_ranges \{/
                 let ghost re5 = b.rest();
-                proof { assert(ranges_view(ack_ranges@) =~= seq![(first_range_start, (first_range_end + 1) as u64)]); }
+                proof {
+                    assert(ranges_view(ack_ranges@) =~= seq![(first_range_start, (first_range_end + 1) as u64)]);
+                    assert(ack_ranges@ =~= seq![first_range_start..(first_range_end + 1) as u64]);
+                    lemma_desc_single(first_range_start..(first_range_end + 1) as u64);
+                }
 //@loop 3 iter=itC
                     invariant
                         sequence < 0x4000_0000_0000_0000,
                         ack_ranges@.len() >= 1,
                         ranges_desc_wf(ack_ranges@),
                         previous_range_start == ack_ranges@.last().start,
+                        previous_range_start < 0x4000_0000_0000_0000,
                         itC.seq().len() == num_remaining_ranges,
                         ack_ranges@.len() == itC.index() + 1,
                         parse_ack_ranges(re5, num_remaining_ranges as nat, first_range_start, seq![(first_range_start, (first_range_end + 1) as u64)])
-                            == parse_ack_ranges(b.rest(), (num_remaining_ranges - itC.index()) as nat, previous_range_start, ranges_view(ack_ranges@)),
+                            == parse_ack_ranges(b.rest(), (num_remaining_ranges - itC.index()) as nat, previous_range_start, ranges_view(ack_ranges@)),   // @C16 from_bytes.ack_range_loop_follows_the_parser
 //@before /let gap = b\.get_varint\(\)\?;/
                     let ghost a0 = ack_ranges@;
 //@after /ack_ranges\.push\(range_start\.\.range_end \+ 1\);/
                     proof {
                         assert(ranges_view(ack_ranges@) =~= ranges_view(a0).push((range_start, (range_end + 1) as u64)));
+                        lemma_desc_push(a0, range_start..(range_end + 1) as u64);
+                        assert(ack_ranges@ =~= a0.push(range_start..(range_end + 1) as u64));
                     }
 //@before /ack_ranges\.reverse\(\);/
                 let ghost a1 = ack_ranges@;
                 proof { lemma_reverse_desc_is_wf(ack_ranges@); }
 //@after /ack_ranges\.reverse\(\);/
-                proof { assert(ranges_view(ack_ranges@) =~= ranges_view(a1).reverse()); }
+                proof {
+                    assert(ranges_view(ack_ranges@) =~= ranges_view(a1).reverse());
+                    lemma_ranges_view_wf(ack_ranges@);
+                }
 //@endfn
 }
 
